@@ -459,8 +459,9 @@ func checkAssociationsSaved(db *gorm.DB, values reflect.Value) bool {
 		// the records of the operation itself count as saved: an association that
 		// refers back to one of them must not save it (and run its hooks) again
 		loadOrStoreVisitMap(&vistMap, db.Statement.ReflectValue)
-		loadOrStoreVisitMap(&vistMap, values)
+		saved := loadOrStoreVisitMap(&vistMap, values)
 		db.Set(visitMapStoreKey, &vistMap)
+		return saved
 	}
 
 	return false
